@@ -85,20 +85,20 @@ type ZedWrap struct {
 	Cause error
 }
 
-func (e *FooWrap) Error() string { return e.Msg + ": " + e.Cause.Error() }
-func (e *BarWrap) Error() string { return e.Msg + ": " + e.Cause.Error() }
-func (e *QuxWrap) Error() string { return e.Msg + ": " + e.Cause.Error() }
-func (e *BazWrap) Error() string { return e.Msg + ": " + e.Cause.Error() }
-func (e *ZedWrap) Error() string { return e.Msg + ": " + e.Cause.Error() }
-func (e *FooWrap) Unwrap() error { return e.Cause }
+func (e *FooWrap) Error() string          { return e.Msg + ": " + e.Cause.Error() }
+func (e *BarWrap) Error() string          { return e.Msg + ": " + e.Cause.Error() }
+func (e *QuxWrap) Error() string          { return e.Msg + ": " + e.Cause.Error() }
+func (e *BazWrap) Error() string          { return e.Msg + ": " + e.Cause.Error() }
+func (e *ZedWrap) Error() string          { return e.Msg + ": " + e.Cause.Error() }
+func (e *FooWrap) Unwrap() error          { return e.Cause }
 func (e *FooWrap) ErrorKeyMarker() string { return "mig-ext" }
-func (e *BarWrap) Unwrap() error { return e.Cause }
+func (e *BarWrap) Unwrap() error          { return e.Cause }
 func (e *BarWrap) ErrorKeyMarker() string { return "mig-ext" }
-func (e *QuxWrap) Unwrap() error { return e.Cause }
+func (e *QuxWrap) Unwrap() error          { return e.Cause }
 func (e *QuxWrap) ErrorKeyMarker() string { return "mig-ext" }
-func (e *BazWrap) Unwrap() error { return e.Cause }
+func (e *BazWrap) Unwrap() error          { return e.Cause }
 func (e *BazWrap) ErrorKeyMarker() string { return "mig-ext" }
-func (e *ZedWrap) Unwrap() error { return e.Cause }
+func (e *ZedWrap) Unwrap() error          { return e.Cause }
 func (e *ZedWrap) ErrorKeyMarker() string { return "mig-ext" }
 
 // Forms.
@@ -210,6 +210,24 @@ func MigNewP(name int, msg string, code int) error {
 	}
 	return e
 }
+
+// XBarV / XBarP: renames that also change the receiver kind. XBarV (used by
+// value) was "*gen.XFooP" (used by pointer); XBarP (pointer) was "gen.XFooV".
+type XBarV struct{ Msg string }
+type XBarP struct{ Msg string }
+
+func (e XBarV) Error() string  { return e.Msg }
+func (e *XBarP) Error() string { return e.Msg }
+
+// BarMulti is a renamed multi-cause type (was "*gen.FooMulti") with a
+// decoder registered through RegisterMultiCauseDecoder.
+type BarMulti struct {
+	Msg  string
+	Errs []error
+}
+
+func (e *BarMulti) Error() string   { return e.Msg }
+func (e *BarMulti) Unwrap() []error { return e.Errs }
 
 // MovedLeaf is a type that only changed its package path ("errsim/elsewhere"
 // -> "errsim/gen"); its type string is the same before and after.
